@@ -661,13 +661,17 @@ class SyncObj(object):
                     currentTermID = entry[2]
                     subscribers = self.__commandsWaitingCommit.pop(entry[1], [])
                     res = self.__doApplyCommand(entry[0])
-                    for subscribeTermID, callback in subscribers:
-                        if subscribeTermID == currentTermID:
-                            callback(res, FAIL_REASON.SUCCESS)
-                        else:
-                            callback(None, FAIL_REASON.DISCARDED)
-
+                    # The entry is executed: count it before the callbacks run, an exception from a user
+                    # callback must neither make the next tick execute it again nor starve the other callbacks.
                     self.__raftLastApplied += 1
+                    for subscribeTermID, callback in subscribers:
+                        try:
+                            if subscribeTermID == currentTermID:
+                                callback(res, FAIL_REASON.SUCCESS)
+                            else:
+                                callback(None, FAIL_REASON.DISCARDED)
+                        except Exception:
+                            logger.exception('command callback failed')
                 except SyncObjExceptionWrongVer as e:
                     logger.error(
                         'request to switch to unsupported code version (self version: %d, requested version: %d)' %
